@@ -23,11 +23,9 @@ def scripts_for(case):
         if kind == "parse":
             out[path] = [["fail"]]
             continue
-        fail_at = None
-        for r in case["rules"]:
-            m = re.match(r"^%s_(\d)$" % tag, r.get("match", ""))
-            if m and ("err" in r or r.get("exit_before_reply")):
-                fail_at = int(m.group(1))
+        def fails(k):
+            text = "select %s_%d " % (tag, k)
+            return any(("err" in r or r.get("exit_before_reply")) and r.get("match") and r["match"] in text for r in case["rules"])
         script, used, conn = [], [], 0
         k = 0
         lines = body.split("\n")
@@ -46,7 +44,7 @@ def scripts_for(case):
                     script.append(["fail"])
                     stop = True
                 else:
-                    ok = not (fail_at == k)
+                    ok = not fails(k)
                     script.append(["sql", conn, 1 if ok else 0])
                     if not ok:
                         stop = True
@@ -76,6 +74,7 @@ class PyDriver:
         self.failed_db, self.refused = [], False
         self.next = 0
         self.sched = []
+        self.refused_idx = set()
 
     def active(self, t):
         return t[0] in ("spawned", "wait", "running", "closing", "done")
@@ -149,7 +148,7 @@ class PyDriver:
                 if s is None:
                     return []
                 if not a[2]:
-                    self.tasks[i] = ["closing", 1, [s2 for _, s2 in conns]]
+                    rest.insert(0, ["fail"])      # the failure is a step of its own
                 return [["sql", db, s]]
             self.tasks[i] = ["closing", 1, [s for _, s in conns]]
             return []
@@ -170,6 +169,8 @@ class PyDriver:
         self.tasks[i] = ["reported"]
         if t[1] == 1:
             self.failed_db.insert(0, self.files[i][0])
+            if i in self.refused_idx:
+                self.refused = True
             if self.ff or self.refused:
                 self.token = True
                 return [PCANCEL]
@@ -183,13 +184,15 @@ class PyDriver:
         return [PCANCEL]
 
 
-def reconstruct(jobs, keep, ff, files, trace, report_order):
+def reconstruct(jobs, keep, ff, files, trace, report_order, refused_idx=(), tags=None, selfdying=()):
     """files: [(db, script)] in creation order; trace: observed events with session ids renumbered in connection
     order; report_order: indices of files in the order the driver processed their results.
     Returns the schedule; raises Unexplained when the greedy search finds none."""
     d = PyDriver(jobs, keep, ff, files)
+    d.refused_idx = set(refused_idx)
     idx = {db: i for i, (db, _) in enumerate(files)}
     pending_reports = list(report_order)
+    starting = set()
 
     def expect(evs, e):
         got = [x for x in evs if x != PCANCEL]
@@ -201,8 +204,23 @@ def reconstruct(jobs, keep, ff, files, trace, report_order):
             raise Unexplained("a result is needed but every observed report has been used")
         i = pending_reports[0]
         settle(i)
+        if d.tasks[i][0] == "running" and d.token:
+            settle(i)
         if d.tasks[i][0] != "done":
             raise Unexplained("file %d is reported next by the CLI but the model has not finished it (%s)" % (i, d.tasks[i][0]))
+        if d.tasks[i][1] == 1 and (d.ff or d.refused or i in d.refused_idx) and not d.token:
+            # this report sets the token: every file the CLI did not report as skipped has looked at the token before
+            for j, t in enumerate(d.tasks):
+                if tags and tags.get(j) not in (None, "SKIPPED") and t[0] in ("idle", "spawned"):
+                    if t[0] == "idle":
+                        starting.add(j)
+                        if len(starting) > len(d.tasks):
+                            raise Unexplained("cannot start every file that ran before the first cancelling report")
+                        spawn(j)
+                    if d.tasks[j][0] == "spawned":
+                        d.task(j)
+                    if tags.get(j) in ("FAILED", "OK"):
+                        settle(j)             # what it did without the engine seeing anything (a parse error ...) it did before
         pending_reports.pop(0)
         d.report(i)
 
@@ -221,6 +239,8 @@ def reconstruct(jobs, keep, ff, files, trace, report_order):
                 d.task(i)
             elif t[0] == "running":
                 rest = t[1]
+                if tags and tags.get(i) == "CANCELLED" and not d.token and (not rest or rest[0][0] == "fail"):
+                    return                # the CLI reports it cancelled: the token is set before it gets that far
                 if d.token or not rest or rest[0][0] == "fail" or (rest[0][0] == "sql" and all(c != rest[0][1] for c, _ in t[2])):
                     d.task(i)
                 else:
@@ -245,36 +265,65 @@ def reconstruct(jobs, keep, ff, files, trace, report_order):
             else:
                 report_next()
 
+    canon = []            # the observed events in the order they were matched (see `deferred`)
+    deferred = []         # closes that the ENGINE caused by dying on its own, of files the CLI cancelled later: the model closes
+                          # a session only when the file shuts down, so they are matched once the token is set
+
+    def do_close(e):
+        i = idx[e[1]]
+        settle(i)
+        t = d.tasks[i]
+        if t[0] == "running":
+            # it is being cancelled: the token must have been set by an earlier failure
+            while not d.token:
+                if pending_reports and pending_reports[0] == i:
+                    raise Unexplained("file %d closes a session before it is finished although no failure has been reported" % i)
+                report_next()
+            settle(i)
+            t = d.tasks[i]
+        if t[0] != "closing" or e[2] not in t[2]:
+            raise Unexplained("session %r of %r closes but the model's file is in state %s" % (e[2], e[1], t[0]))
+        expect(d.task(i, t[2].index(e[2])), e)
+        canon.append(e)
+        settle(i)
+
+    def flush(force):
+        if deferred and force:
+            while not d.token:
+                report_next()
+        while deferred and d.token:
+            do_close(deferred.pop(0))
+
     for e in trace:
         kind = e[0]
+        flush(False)
         if kind == "create":
             if d.phase[0] != "create":
                 raise Unexplained("CREATE DATABASE observed after the creation phase")
             expect(d.driver(), e)
+            canon.append(e)
         elif kind in ("connect", "sql"):
             i = idx.get(e[1])
             if i is None:
                 raise Unexplained("event for an unknown database %r" % (e[1],))
             settle(i)
             expect(d.task(i), e)
+            canon.append(e)
+            settle(i)
         elif kind == "close":
             i = idx.get(e[1])
             if i is None:
                 raise Unexplained("event for an unknown database %r" % (e[1],))
             settle(i)
-            t = d.tasks[i]
-            if t[0] == "running":
-                # it is being cancelled: the token must have been set by an earlier failure
-                while not d.token:
-                    report_next()
-                settle(i)
-                t = d.tasks[i]
-            if t[0] != "closing" or e[2] not in t[2]:
-                raise Unexplained("session %r of %r closes but the model's file is in state %s" % (e[2], e[1], t[0]))
-            expect(d.task(i, t[2].index(e[2])), e)
+            if d.tasks[i][0] == "running" and not d.token and tags and tags.get(i) == "CANCELLED" and i in selfdying:
+                deferred.append(e)
+                continue
+            do_close(e)
         elif kind == "cancel":
-            expect_c = d.ctrlc()
+            d.ctrlc()
+            canon.append(e)
         elif kind in ("drop", "mgmt-close"):
+            flush(True)
             finish_stream(d, pending_reports, report_next, settle)
             guard = 0
             while True:
@@ -285,10 +334,12 @@ def reconstruct(jobs, keep, ff, files, trace, report_order):
                 if evs:
                     if evs != [e]:
                         raise Unexplained("the model emits %r where %r was observed" % (evs, e))
+                    canon.append(e)
                     break
                 if d.phase[0] == "end":
                     raise Unexplained("the model ends without emitting %r" % (e,))
     # nothing more observed: let the model finish silently (it must not emit anything else)
+    flush(True)
     finish_stream(d, pending_reports, report_next, settle)
     guard = 0
     while d.phase[0] != "end" and guard < 10000:
@@ -296,7 +347,7 @@ def reconstruct(jobs, keep, ff, files, trace, report_order):
         evs = [x for x in d.driver() if x != PCANCEL]
         if evs:
             raise Unexplained("the model still emits %r after the last observed event" % (evs,))
-    return d.sched
+    return d.sched, canon
 
 
 def finish_stream(d, pending_reports, report_next, settle):
@@ -319,6 +370,51 @@ def finish_stream(d, pending_reports, report_next, settle):
 STATUS_CODE = {"OK": 0, "FAILED": 1, "CANCELLED": 2, "SKIPPED": 3}
 
 
+def settle_cancel_lag(trace, cancelled_dbs):
+    """Engine processes stamp what they READ, each with its own scheduling delay; the only link between two files' events
+    through the CLI is the cancellation token.  A session start or a statement that the CLI issued just before the token was set
+    can therefore be stamped after the first session of a cancelled file was closed.  Such events are moved in front of that
+    close (their own order kept).  This replay is about the driver's bookkeeping; "no new work after a cancellation" is C19's
+    own criterion (request times against the signal time, with an allowance) and is not judged here."""
+    T = next((k for k, e in enumerate(trace) if e[0] == "close" and e[1] in cancelled_dbs), None)
+    if T is None:
+        return trace
+    late = [e for e in trace[T:] if e[0] in ("connect", "sql")]
+    rest = [e for e in trace[T:] if e[0] not in ("connect", "sql")]
+    return trace[:T] + late + rest
+
+
+def refused_paths(case):
+    out = set()
+    for r in case["rules"]:
+        if "Connection refused" in r.get("err", ""):
+            for p, inf in case["info"].items():
+                if r.get("match", "").startswith(inf.get("tag", "\0") + "_"):
+                    out.add(p)
+    return out
+
+
+def settle_lag(trace):
+    """An engine process stamps a request when it READS it.  A request the CLI wrote just before its file was cancelled can be
+    read after the CLI has begun to close the file's other sessions (and a session it had just opened can start up that late);
+    such events are moved in front of the first close of their database (the same canonicalisation as in C19; it concerns cancelled files only)."""
+    out = []
+    first_close = {}
+    for e in trace:
+        if e[0] == "close" and e[1] not in first_close:
+            first_close[e[1]] = len(out)
+            out.append(e)
+        elif e[0] in ("sql", "connect") and e[1] in first_close:
+            k = first_close[e[1]]
+            out.insert(k, e)
+            for d in first_close:
+                if first_close[d] >= k:
+                    first_close[d] += 1
+        else:
+            out.append(e)
+    return out
+
+
 def model_case(case, trace, got_order, jobs, keep, ff):
     """-> (wire value for family `driver`, expected dict) or raises Unexplained"""
     scripts = scripts_for(case)
@@ -331,6 +427,7 @@ def model_case(case, trace, got_order, jobs, keep, ff):
     if len(db_path) != len(created) or len(set(db_path.values())) != len(created):
         raise Unexplained("cannot map the created databases %r to the files" % (created,))
     files = [(db, scripts[db_path[db]]) for db in created]
+    path_idx_early = {db_path[db]: i for i, db in enumerate(created)}
     # session ids in connection order
     ren, tr2 = {}, []
     for e in trace:
@@ -348,8 +445,15 @@ def model_case(case, trace, got_order, jobs, keep, ff):
         if p not in path_idx:
             raise Unexplained("report for %r, which has no database" % (p,))
         order.append(path_idx[p])
-    sched = reconstruct(jobs, keep, ff, files, tr2, order)
-    wire = [jobs, 1 if keep else 0, 1 if ff else 0, [[db, sc, 0] for db, sc in files], sched]
+    tr2 = settle_lag(tr2)
+    tr2 = settle_cancel_lag(tr2, {created[path_idx_early[p]] for p, tag in got_order if tag == "CANCELLED" and p in path_idx_early})
+    try:
+        sched, tr2 = reconstruct(jobs, keep, ff, files, tr2, order, selfdying={path_idx_early[p] for p, inf in case["info"].items() if inf.get("kind") in ("nostart", "dies") and p in path_idx_early}, refused_idx={i for i, db in enumerate(created) if db_path[db] in refused_paths(case)},
+                            tags={path_idx_early[p]: tag for p, tag in got_order if p in path_idx_early})
+    except RecursionError:
+        raise Unexplained("the order of the reports cannot be produced by the model (a file is reported before it could have started)")
+    refused = refused_paths(case)
+    wire = [jobs, 1 if keep else 0, 1 if ff else 0, [[db, sc, 1 if db_path[db] in refused else 0] for db, sc in files], sched]
     expected = {"trace": tr2, "reported": [[created[path_idx[p]], STATUS_CODE.get(tag, -1)] for p, tag in got_order]}
     return wire, expected
 
@@ -357,6 +461,7 @@ def model_case(case, trace, got_order, jobs, keep, ff):
 def compare(mout, expected, rc):
     """model output of family `driver` vs the observation; returns None or a description"""
     phase, tr, rep, ex, acc = mout
+    rep = [[d, 1 if c == 4 else c] for d, c in rep]
     tr = [e for e in tr if e != PCANCEL]
     if tr != [e for e in expected["trace"] if e != PCANCEL]:
         k = next((i for i, (a, b) in enumerate(zip(tr, expected["trace"])) if a != b), min(len(tr), len(expected["trace"])))
@@ -370,3 +475,22 @@ def compare(mout, expected, rc):
     if acc != 1:
         return "the model's own trace is refused by the observer automaton (contradicts theorem C17_driver_refines_observer)"
     return None
+
+
+def recheck(case, run_once, jobs, keep, ff, tries=2):
+    """A run that could not be explained is repeated: the observation (engine-side time stamps, the order of lines on stdout)
+    has timing artefacts of its own, so only a scenario that is unexplained EVERY time is reported.  run_once() -> (r, trace, status)."""
+    import vlib
+    why = None
+    for _ in range(tries):
+        r, tr, st = run_once()
+        if r["hung"]:
+            return "the CLI did not terminate"
+        try:
+            wire, exp = model_case(case, tr, [(p, tag) for p, tag, _ in st], jobs, keep, ff)
+            why = compare(vlib.run_model("driver", [wire])[0], exp, r["rc"])
+        except Unexplained as ex:
+            why = str(ex)
+        if not why:
+            return None
+    return why
